@@ -593,6 +593,42 @@ _axiom("A1_fresh", [_i, _j], z3.Implies(z3.And(_i != _j, z3.Length(draw(_i)) >= 
        note="A1: two different draws of at least 16 random bytes differ (fails with probability 2^-128 per pair)")
 
 
+_ghost_var("sample0", TList(TInt))
+sample_idx = _specfn("sample_idx", [TList(TInt), TInt], TInt, py=lambda xs, p: xs.index(p) if p in xs else -1,
+                     doc="R1: position of p in a list returned by random.sample (the inverse of the sampled arrangement)")
+is_sample = _specfn("is_sample", [TList(TInt), TInt, TInt], TBool,
+                    py=lambda xs, lo, hi: len(set(xs)) == len(xs) and all(lo <= x < hi for x in xs),
+                    doc="R1: xs was returned by random.sample(range(lo, hi), len(xs)): pairwise distinct members of the range")
+_S = z3.Const("smp_S", sort(TList(TInt)))
+_lo, _hi, _p = z3.Ints("smp_lo smp_hi smp_p")
+_axiom("R1_sample_nth", [_S, _lo, _hi, _i],
+       z3.Implies(z3.And(is_sample(_S, _lo, _hi), 0 <= _i, _i < z3.Length(_S)),
+                  z3.And(_lo <= _S[_i], _S[_i] < _hi, sample_idx(_S, _S[_i]) == _i)), patterns=None,
+       note="R1: the members of a sample lie in the population range and are pairwise distinct (sample_idx is a left inverse)")
+_axiom("R1_sample_onto", [_S, _lo, _hi, _p],
+       z3.Implies(z3.And(is_sample(_S, _lo, _hi), z3.Length(_S) == _hi - _lo, _lo <= _p, _p < _hi),
+                  z3.And(0 <= sample_idx(_S, _p), sample_idx(_S, _p) < z3.Length(_S), _S[sample_idx(_S, _p)] == _p)),
+       patterns=[z3.MultiPattern(is_sample(_S, _lo, _hi), sample_idx(_S, _p))],
+       note="R1: a sample as large as its population contains every member of it")
+
+
+@external("random.sample", "R1: random.sample(range(lo, hi), k) returns k pairwise distinct members of the range (axioms R1_sample_nth / "
+                           "R1_sample_onto); ValueError when k is negative or exceeds the population; the ghost variable sample0 names the returned list")
+def _rsample(E, a, kw, fr, node):
+    from .engine import RangeV
+    pop, k = a[0], (a[1] if len(a) > 1 else kw.get("k"))
+    if not isinstance(pop, RangeV) or not (isinstance(pop.step, int) and pop.step == 1):
+        raise Unsupported("random.sample of something other than range(lo, hi)")
+    lo, hi, kt = z3_int(pop.start), z3_int(pop.stop), z3_int(k)
+    n = z3.If(hi > lo, hi - lo, 0)
+    E.may_raise("ValueError", z3.Or(kt < 0, kt > n), _line(node), "Sample larger than population or is negative")
+    r = E.fresh("sample", TList(TInt))
+    E.assume(z3.Length(r.t) == kt)
+    E.assume(is_sample(r.t, lo, hi))
+    E.ghostv["sample0"] = r
+    return E.new_symlist(r)
+
+
 def _paths(fn):
     def h(E, a, kw, fr, node):
         from . import paths
